@@ -81,13 +81,14 @@ HERE = os.path.dirname(os.path.abspath(__file__))
 FALLBACK = os.path.join(HERE, 'gen_fallback.json')
 
 TEXT, TEXTS, BOOL, OPT, ENC, CAND, FILES, COMPILED, PAIRCE, EXTS, CHARS, CHAR, RESP, ACC, ERASED, SELF, REQ, NONE, \
-    PAIR2, UNIT, ENCMAP, PAIRTT = ('text', 'texts', 'bool', 'opt', 'enc', 'cand', 'files', 'compiled', 'pairce', 'exts',
+    PAIR2, UNIT, ENCMAP, PAIRTT, PAIRPT, VIEW, FMAP = ('text', 'texts', 'bool', 'opt', 'enc', 'cand', 'files', 'compiled', 'pairce', 'exts',
                                    'chars', 'char', 'resp', 'acc', 'erased', 'self', 'request', 'none', 'pair2', 'unit',
-                                   'encmap', 'pairtt')
+                                   'encmap', 'pairtt', 'pairpt', 'view', 'fmap')
 COQTY = {TEXT: 'text', TEXTS: 'list text', BOOL: 'bool', OPT: 'option text', ENC: 'option text', CAND: 'cand',
          FILES: 'list cand', COMPILED: 'list (text * list text)', PAIRCE: 'text * list text', EXTS: 'list text',
          CHARS: 'list N', CHAR: 'N', RESP: 'resp', ACC: 'accset', PAIR2: 'option text * option text', UNIT: 'unit',
-         ENCMAP: 'list (text * text)', PAIRTT: 'text * text'}
+         ENCMAP: 'list (text * text)', PAIRTT: 'text * text', PAIRPT: 'option text * text', VIEW: 'view_inst',
+         FMAP: 'filemap'}
 ELEM = {FILES: CAND, COMPILED: PAIRCE, EXTS: TEXT, CHARS: CHAR, TEXTS: TEXT, ENCMAP: PAIRTT}
 
 
@@ -387,6 +388,8 @@ def paren(t, ind):
 
 # ------------------------------------------------------------------ the functions
 FUNCS = [
+    dict(qual='split_path_info', gen='gen_split_path_info', monadic=False, ret=TEXTS, file='pyramid/traversal.py',
+         params=[('path', TEXT)], sig='(path : text) : list text', fall=None, empty_list=('(@nil text)', TEXTS)),
     dict(qual='_contains_invalid_element_char', gen='gen_contains_invalid', monadic=False, ret=BOOL,
          params=[('item', TEXT)], sig='(item : text) : bool', fall='false'),
     dict(qual='_secure_path', gen='gen_secure_path', monadic=False, ret=OPT,
@@ -399,6 +402,15 @@ FUNCS = [
     dict(qual='_compile_content_encodings', gen='gen_compile_content_encodings', monadic=False, ret=COMPILED,
          params=[('encodings', TEXTS)],
          sig='(encmap : list (text * text)) (encodings : list text) : list (text * list text)', fall=None),
+    # __init__: the attribute stores are collected into a record (INIT_FIELDS, each stored exactly once)
+    dict(qual='static_view.__init__', gen='gen_init', monadic=False, ret=VIEW, record=True,
+         params=[(None, SELF), ('root_dir', TEXT), (None, ERASED), ('package_name', OPT), ('use_subpath', BOOL),
+                 ('index', TEXT), ('reload', BOOL), ('content_encodings', TEXTS)],
+         defaults={'cache_max_age': '3600', 'package_name': 'None', 'use_subpath': 'False', 'index': None,
+                   'reload': 'False', 'content_encodings': '()'},
+         sig='(encmap : list (text * text)) (caller : text) (root_dir : text) (package_name : option text) '
+             '(use_subpath : bool) (index : text) (reload : bool) (content_encodings : list text) : view_inst',
+         fall=None),
     dict(qual='static_view.get_resource_name', gen='gen_get_resource_name', monadic=True, ret=TEXT,
          params=[(None, SELF), (None, REQ)],
          sig='(c : config) (rq : request) (pi : text) (fs : fsys) (use_subpath : bool) (sub : list text) : E text',
@@ -415,9 +427,13 @@ FUNCS = [
          fall=None),
 ]
 SPLITTERS = ('traversal_path_info', 'split_path_info')
+# the instance attributes static_view.__init__ must bind, each exactly once, in the order of the fields of view_inst
+INIT_FIELDS = [('package_name', OPT), ('docroot', TEXT), ('norm_docroot', TEXT), ('use_subpath', BOOL), ('index', TEXT),
+               ('reload', BOOL), ('content_encodings', COMPILED), ('filemap', FMAP)]
+INIT_ERASED = ('cache_max_age',)
 
 # every source function whose control flow is regenerated on every run (tools/coverage_map.py reads this)
-TRANSLATED = ['pyramid/static.py:' + f['qual'] for f in FUNCS]
+TRANSLATED = [f.get('file', 'pyramid/static.py') + ':' + f['qual'] for f in FUNCS]
 
 
 class Val:
@@ -454,8 +470,24 @@ class Fn:
         if decos:
             self.module.check_global('lru_cache', 'functools')     # a transparent memo of a pure function
         a = fn.args
-        if a.vararg or a.kwarg or a.kwonlyargs or a.defaults or getattr(a, 'posonlyargs', []):
+        if a.vararg or a.kwarg or a.kwonlyargs or getattr(a, 'posonlyargs', []):
             raise Problem('unexpected parameter list')
+        if a.defaults:
+            want = spec.get('defaults')
+            if want is None:
+                raise Problem('unexpected parameter defaults')
+            names = [x.arg for x in a.args][len(a.args) - len(a.defaults):]
+            got = dict(zip(names, a.defaults))
+            if set(got) != set(want):
+                raise Problem('parameters with defaults: %r' % sorted(got))
+            for nm, w in want.items():
+                if w is None:
+                    if not (isinstance(got[nm], ast.Constant) and isinstance(got[nm].value, str)):
+                        raise Problem('default of %s is not a str constant' % nm)
+                elif u(got[nm]) != w:
+                    raise Problem('default of %s is %s, expected %s' % (nm, u(got[nm]), w))
+        elif spec.get('defaults'):
+            raise Problem('parameter defaults missing')
         if len(a.args) != len(spec['params']):
             raise Problem('expected %d parameters, found %d' % (len(spec['params']), len(a.args)))
         env = {}
@@ -472,6 +504,16 @@ class Fn:
             body = body[1:]
 
         def end(env):
+            if spec.get('record'):
+                args = []
+                for attr, ty in INIT_FIELDS:
+                    v = env.get('@' + attr)
+                    if v is None:
+                        raise Problem('self.%s is not bound on some path through __init__' % attr)
+                    if v.ty != ty and not (ty == OPT and v.ty in (TEXT, NONE)):
+                        raise Problem('self.%s is bound to a %s' % (attr, v.ty))
+                    args.append(self.as_opt(v) if ty == OPT else v.term)
+                return A('mkView', *args)
             if spec['fall'] is None:
                 raise Problem('control can fall off the end of the function')
             return self.ret_term(K(spec['fall']))
@@ -523,6 +565,31 @@ class Fn:
                                                           right=s.value)), env, k)
         if isinstance(s, ast.Expr):
             return self.expr_stmt(s, env, k)
+        if isinstance(s, ast.Delete):
+            # del x[-1] on a list: the last element goes
+            ok = len(s.targets) == 1 and isinstance(s.targets[0], ast.Subscript) and isinstance(s.targets[0].value, ast.Name) \
+                and s.targets[0].value.id in env and env[s.targets[0].value.id].ty == TEXTS and u(s.targets[0].slice) == '-1'
+            if not ok:
+                raise Problem('del outside the table: %s' % u(s))
+            nm = s.targets[0].value.id
+            if not getattr(env[nm], 'nonempty', False):
+                raise Problem('del %s[-1] where %s may be empty (IndexError): not guarded by a test of %s' % (nm, nm, nm))
+            env2 = dict(env)
+            env2[nm] = Val(A('removelast', env[nm].term), TEXTS)
+            return k(env2)
+        if isinstance(s, ast.Try) and self.spec.get('record'):
+            # try: __import__(name)  except ImportError: warnings.warn(..)   -- a deprecation warning, no other effect
+            ok = len(s.body) == 1 and isinstance(s.body[0], ast.Expr) and isinstance(s.body[0].value, ast.Call) \
+                and isinstance(s.body[0].value.func, ast.Name) and s.body[0].value.func.id == '__import__' \
+                and len(s.body[0].value.args) == 1 and isinstance(s.body[0].value.args[0], ast.Name) \
+                and not s.orelse and not s.finalbody and len(s.handlers) == 1 \
+                and isinstance(s.handlers[0].type, ast.Name) and s.handlers[0].type.id == 'ImportError' \
+                and len(s.handlers[0].body) == 1 and isinstance(s.handlers[0].body[0], ast.Expr) \
+                and isinstance(s.handlers[0].body[0].value, ast.Call) and u(s.handlers[0].body[0].value.func) == 'warnings.warn'
+            if not ok:
+                raise Problem('try statement outside the table: %s' % u(s).split('\n')[0])
+            self.module.check_plain_import('warnings')
+            return k(env)
         raise Problem('statement outside the subset: %s' % u(s).split('\n')[0])
 
     def jump(self, loop, env):
@@ -596,6 +663,28 @@ class Fn:
             body = Bind(K('get_fm'), fm,
                         Bind(A('set_fm', A('::', A('pair', kv.term, vv.term), K(fm))), self.fresh('u'), k(env)))
             return self.with_binds(b1 + b2, body)
+        if isinstance(tg, ast.Attribute) and isinstance(tg.value, ast.Name) and tg.value.id == self.self_name \
+                and self.spec.get('record'):
+            if '@' + tg.attr in env:
+                raise Problem('self.%s is bound twice' % tg.attr)
+            env2 = dict(env)
+            if tg.attr in INIT_ERASED:
+                if not isinstance(s.value, ast.Name):
+                    raise Problem('self.%s = %s' % (tg.attr, u(s.value)))
+                env2['@' + tg.attr] = Val(K('tt'), ERASED)
+                return k(env2)
+            if tg.attr not in dict(INIT_FIELDS):
+                raise Problem('unknown instance attribute self.%s' % tg.attr)
+            if tg.attr == 'filemap':
+                if not (isinstance(s.value, ast.Dict) and not s.value.keys):
+                    raise Problem('self.filemap = %s' % u(s.value))
+                env2['@filemap'] = Val(K('(@nil (text * list cand))'), FMAP)
+                return k(env2)
+            binds, v = self.expr(s.value, env)
+            if binds:
+                raise Problem('effect in __init__: %s' % u(s))
+            env2['@' + tg.attr] = v
+            return k(env2)
         if isinstance(tg, ast.Tuple):
             if len(tg.elts) != 2 or not all(isinstance(e, ast.Name) for e in tg.elts):
                 raise Problem('tuple target: %s' % u(tg))
@@ -607,6 +696,11 @@ class Fn:
                     env2[e.id] = Val(K('tt'), ERASED)
                 return k(env2)
             binds, v = self.expr(s.value, env)
+            if v.ty == PAIRPT:
+                env2 = dict(env)
+                env2[tg.elts[0].id] = Val(A('fst', v.term), OPT)
+                env2[tg.elts[1].id] = Val(A('snd', v.term), TEXT)
+                return self.with_binds(binds, k(env2))
             if v.ty != PAIR2:
                 raise Problem('unpacking a %s' % v.ty)
             env2 = dict(env)
@@ -633,6 +727,12 @@ class Fn:
                     raise Problem('append of a %s' % item.ty)
                 env2[name] = Val(A('++', v.term, A('list1', item.term)), FILES)
                 return self.with_binds(b, k(env2))
+            if meth == 'append' and v.ty == TEXTS and len(c.args) == 1 and not c.keywords:
+                b, item = self.expr(c.args[0], env)
+                if b or item.ty != TEXT:
+                    raise Problem('append of a %s' % item.ty)
+                env2[name] = Val(A('++', v.term, A('list1', item.term)), TEXTS)
+                return k(env2)
             if meth == 'sort' and v.ty == FILES and not c.args and len(c.keywords) == 1 and c.keywords[0].arg == 'key':
                 lam = c.keywords[0].value
                 ok = isinstance(lam, ast.Lambda) and len(lam.args.args) == 1 and isinstance(lam.body, ast.Call) \
@@ -715,6 +815,16 @@ class Fn:
             rs, rn = self.restorer(name, r_some, v), self.restorer(name, r_none, v)
             fa = kf(env_none, rn)
             return MOpt(v.term, fa, b, mk_if(('atom', A('nonempty_text', K(b))), kt(env_some, rs), kf(env_some, rs)))
+        if isinstance(test, ast.Name) and test.id in env and env[test.id].ty == TEXTS:
+            # truthiness of a list: in the true branch (and in what follows, when the false branch leaves) the list is
+            # known to be non-empty until it is modified -- `del x[-1]` is only translated under that knowledge
+            v = env[test.id]
+            known = Val(v.term, TEXTS)
+            known.nonempty = True
+            env_t = dict(env)
+            env_t[test.id] = known
+            b = ('atom', A('nonempty_list', v.term))
+            return mk_if(b, simplify(kt(env_t), implied(b, True, {})), simplify(kf(env), implied(b, False, {})))
         binds, b = self.bexpr(test, env)
         if binds and b[0] not in ('atom', 'not'):
             raise Problem('an effectful test must be the whole test: %s' % u(test))
@@ -775,6 +885,9 @@ class Fn:
                 nm = n.value.func.value.func.value.id
             elif isinstance(n, ast.AugAssign) and isinstance(n.target, ast.Name):
                 nm = n.target.id
+            elif isinstance(n, ast.Delete) and len(n.targets) == 1 and isinstance(n.targets[0], ast.Subscript) \
+                    and isinstance(n.targets[0].value, ast.Name):
+                nm = n.targets[0].value.id
             if nm and nm not in assigned:
                 assigned.append(nm)
         for nm in assigned:
@@ -820,6 +933,8 @@ class Fn:
         binds, v = self.expr(node, env, want_bool=True)
         if v.ty == TEXT:                   # truth value of a str: it is not empty
             return binds, ('atom', A('nonempty_text', v.term))
+        if v.ty == TEXTS:                  # truth value of a list: it is not empty
+            return binds, ('atom', A('nonempty_list', v.term))
         if v.ty != BOOL:
             raise Problem('truth value of a %s is not in the table: %s' % (v.ty, u(node)))
         return binds, ('atom', v.term)
@@ -846,6 +961,8 @@ class Fn:
                 return [], Val(K('invalid_element_chars'), CHARS)
             raise Problem('name %s is not in the table' % node.id)
         if isinstance(node, ast.List) and not node.elts:
+            if self.spec.get('empty_list'):
+                return [], Val(K(self.spec['empty_list'][0]), self.spec['empty_list'][1])
             return [], Val(K('(@nil cand)'), FILES)
         if isinstance(node, ast.Dict) and not node.keys:
             return [], Val(K('(@nil (text * list text))'), COMPILED)
@@ -885,6 +1002,13 @@ class Fn:
             else:
                 raise Problem('`in` on %s and %s' % (v1.ty, v2.ty))
             return b1 + b2, Val(t if isinstance(op, ast.In) else A('negb', t), BOOL)
+        if isinstance(op, (ast.Eq, ast.NotEq)):
+            b1, v1 = self.expr(l, env)
+            b2, v2 = self.expr(r, env)
+            if b1 or b2 or v1.ty != TEXT or v2.ty != TEXT:
+                raise Problem('== on %s and %s' % (v1.ty, v2.ty))
+            t = A('text_eqb', v1.term, v2.term)
+            return [], Val(t if isinstance(op, ast.Eq) else A('negb', t), BOOL)
         if isinstance(op, (ast.Is, ast.IsNot)) and isinstance(r, ast.Constant) and r.value is None:
             b1, v1 = self.expr(l, env)
             if v1.ty not in (OPT, ENC):
@@ -900,6 +1024,12 @@ class Fn:
         raise Problem('comparison outside the table: %s' % u(node))
 
     def attribute(self, node, env):
+        if self.spec.get('record') and isinstance(node.value, ast.Name) and node.value.id == self.self_name:
+            # inside __init__ an attribute read sees what __init__ itself has stored so far
+            v = env.get('@' + node.attr)
+            if v is None or v.ty == ERASED:
+                raise Problem('self.%s is read in __init__ before it is bound' % node.attr)
+            return [], v
         for attr, (term, ty) in (('use_subpath', (K('use_subpath'), BOOL)), ('package_name', (A('c_pkg', K('c')), BOOL)),
                                  ('docroot', (A('c_docroot', K('c')), TEXT)),
                                  ('norm_docroot', (A('normpath', A('c_docroot', K('c'))), TEXT)),
@@ -909,6 +1039,12 @@ class Fn:
                 return [], Val(term, ty)
         if self.is_req_attr(node, 'subpath'):
             return [], Val(K('sub'), TEXTS)
+        if node.attr == '__name__' and isinstance(node.value, ast.Call) and isinstance(node.value.func, ast.Name) \
+                and node.value.func.id == 'caller_package' and not node.value.args and not node.value.keywords \
+                and self.spec.get('record'):
+            # the package of the module that calls static_view(..): an input of the model (s_caller)
+            self.global_is('caller_package', 'pyramid.path')
+            return [], Val(K('caller'), TEXT)
         if self.is_req_attr(node, 'query_string'):
             return [], Val(A('r_qs', K('rq')), TEXT)
         if self.is_req_attr(node, 'accept_encoding'):
@@ -926,6 +1062,15 @@ class Fn:
         # ---- methods
         if isinstance(f, ast.Attribute):
             # str methods
+            if f.attr in ('strip', 'split') and len(args) == 1 and isinstance(args[0], ast.Constant) \
+                    and isinstance(args[0].value, str) and len(args[0].value) == 1:
+                b0, v0 = self.expr(f.value, env)
+                if b0 or v0.ty != TEXT:
+                    raise Problem('%s on a %s' % (f.attr, v0.ty))
+                ch = K(str(ord(args[0].value)))
+                if f.attr == 'strip':
+                    return [], Val(A('strip_char', ch, v0.term), TEXT)
+                return [], Val(A('split_on', ch, v0.term), TEXTS)
             if f.attr in ('rstrip', 'endswith', 'join', 'format') and not self.is_self_attr(f.value, f.attr):
                 if f.attr == 'format' and isinstance(f.value, ast.Constant) and isinstance(f.value.value, str):
                     pieces = f.value.value.split('{}')
@@ -1020,12 +1165,30 @@ class Fn:
             if v.ty != TEXT:
                 raise Problem('%s of a %s' % (name, v.ty))
             return b, Val(A('gen_contains_invalid', v.term), BOOL)
+        if name == 'resolve_asset_spec' and len(args) == 2:
+            self.global_is(name, 'pyramid.asset')
+            b0, v0 = self.expr(args[0], env)
+            b1, v1 = self.expr(args[1], env)
+            if b0 or b1 or v0.ty != TEXT or v1.ty not in (TEXT, OPT, NONE):
+                raise Problem('resolve_asset_spec(%s, %s)' % (v0.ty, v1.ty))
+            return [], Val(A('resolve_asset_spec', v0.term, self.as_opt(v1)), PAIRPT)
+        if name == '_compile_content_encodings' and len(args) == 1:
+            self.module.check_translated(name)
+            b, v = self.expr(args[0], env)
+            if b or v.ty != TEXTS:
+                raise Problem('%s of a %s' % (name, v.ty))
+            return [], Val(A('gen_compile_content_encodings', K('encmap'), v.term), COMPILED)
         if name == '_secure_path' and len(args) == 1:
             self.module.check_translated(name)
             b, v = self.expr(args[0], env)
             if v.ty != TEXTS:
                 raise Problem('%s of a %s' % (name, v.ty))
             return b, Val(A('gen_secure_path', v.term), OPT)
+        if name == 'tuple' and len(args) == 1:
+            b, v = self.expr(args[0], env)
+            if b or v.ty != TEXTS:
+                raise Problem('tuple of a %s' % v.ty)
+            return [], v
         if name == 'any' and len(args) == 1 and isinstance(args[0], (ast.ListComp, ast.GeneratorExp)):
             comp = args[0]
             if len(comp.generators) != 1 or comp.generators[0].ifs or comp.generators[0].is_async \
@@ -1148,8 +1311,8 @@ class Fn:
 
 # ------------------------------------------------------------------ module-level checks
 class Module:
-    def __init__(self, src_root):
-        self.path = os.path.join(src_root, 'pyramid/static.py')
+    def __init__(self, src_root, rel='pyramid/static.py', cls='static_view'):
+        self.path = os.path.join(src_root, rel)
         with open(self.path) as f:
             self.tree = ast.parse(f.read())
         self.imports = {}
@@ -1170,10 +1333,13 @@ class Module:
                 for t in n.targets:
                     if isinstance(t, ast.Name):
                         self.assigned[t.id] = self.assigned.get(t.id, 0) + 1
-        self.cls = next((n for n in self.tree.body if isinstance(n, ast.ClassDef) and n.name == 'static_view'), None)
+        self.methods = {}
+        self.translated = {s['qual'].split('.')[-1] for s in FUNCS}
+        if cls is None:
+            return
+        self.cls = next((n for n in self.tree.body if isinstance(n, ast.ClassDef) and n.name == cls), None)
         if self.cls is None or self.cls.bases or self.cls.decorator_list or self.cls.keywords:
             raise Problem('class static_view not found / has bases or decorators')
-        self.methods = {}
         for n in self.cls.body:
             if isinstance(n, ast.FunctionDef):
                 if n.name in self.methods:
@@ -1250,13 +1416,16 @@ def translate(src_root):
     except (OSError, ValueError):
         fallback = {}
     out = {}
-    try:
-        mod = Module(src_root)
-    except (Problem, OSError, SyntaxError) as e:
-        problems.append('translator: %s' % e)
-        mod = None
+    mods = {}
+    for rel, cls in (('pyramid/static.py', 'static_view'), ('pyramid/traversal.py', None)):
+        try:
+            mods[rel] = Module(src_root, rel, cls)
+        except (Problem, OSError, SyntaxError) as e:
+            problems.append('translator: %s: %s' % (rel, e))
+            mods[rel] = None
     for spec in FUNCS:
         try:
+            mod = mods[spec.get('file', 'pyramid/static.py')]
             if mod is None:
                 raise Problem('module not readable')
             out[spec['gen']] = Fn(mod.find(spec['qual']), spec, mod).translate()
